@@ -1378,4 +1378,147 @@ theorem heap_bytes_untouched (cfg : Cfg) (ok : CfgOK cfg) (h : Heap) (op : Op) (
 
 example : execJ (fun _ => 0) (fun x => x + 1) [.w 0 8, .cp 80 8 3] 81 = 10 := by decide
 
+
+/-! ### realloc: when does the block stay in place? (every neighbour configuration) -/
+
+/-- EXACT characterisation of in-place reallocation, in terms of the heap layout only: the
+block at `p` (usable size `sz`) keeps its address IF AND ONLY IF the rounded request `len`
+(1) does not exceed `sz` (no-op or shrink-split, whatever the neighbours are), or (2) the
+chunk directly ABOVE it is free and offers the missing bytes (`len − sz ≤ its sz + 8`), or
+(3) the block is the topmost chunk, no free chunk anywhere could hold the request, and the
+configured heap end (if any) is not passed.  In every other configuration — free chunk only
+BELOW, guard above, free chunk above too small, a large enough hole elsewhere, heap end
+reached — realloc answers NULL or MOVES the block (malloc + memcpy + free; `realloc_preserves_prefix`,
+`realloc_bytes_preserved`). -/
+theorem realloc_in_place_iff (cfg : Cfg) (ok : CfgOK cfg) (h : Heap) (p n sz : Nat) (r : Res)
+    (hr : Reach cfg h) (hl : lookup (p - 8) h.live = some sz) (hs : realloc cfg h (some p) n = some r) :
+    r.ret = some p ↔
+      minLen (roundLen cfg.W n) ≤ sz ∨
+      (∃ f ∈ h.flp, f.1 = p + sz ∧ minLen (roundLen cfg.W n) - sz ≤ f.2 + 8) ∨
+      (h.brk = p + sz ∧ (∀ f ∈ h.flp, f.2 < minLen (roundLen cfg.W n)) ∧
+        (cfg.lim = 0 ∨ p + minLen (roundLen cfg.W n) ≤ cfg.lim)) := by
+  obtain ⟨_, hlen8, _⟩ := reqLen_props cfg ok n
+  have hi := hr.inv ok
+  have hlive := lookup_mem hl
+  unfold realloc reallocCore at hs
+  simp only at hs
+  generalize minLen (roundLen cfg.W n) = len at *
+  split at hs
+  · cases hs
+  · rename_i hp8
+    rw [hl] at hs
+    simp only at hs
+    split at hs
+    · rename_i hle
+      have hret : r.ret = some p := by
+        split at hs
+        · simp only [Option.some.injEq] at hs; subst hs; rfl
+        · split at hs
+          · cases hs
+          · simp only [Option.some.injEq] at hs; subst hs; rfl
+      exact ⟨fun _ => Or.inl hle, fun _ => hret⟩
+    · rename_i hgt
+      split at hs
+      · rename_i fp3 hg
+        obtain ⟨hm3, ha3, hs3⟩ := growScan_inl hg
+        have hret : r.ret = some p := by
+          split at hs <;> (simp only [Option.some.injEq] at hs; subst hs; rfl)
+        exact ⟨fun _ => Or.inr (Or.inl ⟨fp3, hm3, ha3, by omega⟩), fun _ => hret⟩
+      · rename_i s hg
+        obtain ⟨hno, _, hmax, hwit⟩ := growScan_inr hg
+        have hnot2 : ¬ ∃ f ∈ h.flp, f.1 = p + sz ∧ len - sz ≤ f.2 + 8 := by
+          rintro ⟨f, hf, h1, h2⟩; exact hno f hf ⟨h1, by omega⟩
+        split at hs
+        · rename_i htop
+          split at hs
+          · rename_i hlim
+            simp only [Option.some.injEq] at hs; subst hs
+            constructor
+            · intro hc; cases hc
+            · rintro (h1 | h1 | ⟨_, _, h3⟩)
+              · omega
+              · exact absurd h1 hnot2
+              · omega
+          · rename_i hlim
+            simp only [Option.some.injEq] at hs; subst hs
+            refine ⟨fun _ => Or.inr (Or.inr ⟨htop.1, fun f hf => ?_, ?_⟩), fun _ => rfl⟩
+            · have := hmax f hf; omega
+            · by_cases h0 : cfg.lim = 0
+              · exact Or.inl h0
+              · right
+                have : ¬ p + len > cfg.lim := fun hc => hlim ⟨h0, hc⟩
+                omega
+        · rename_i hnt
+          have hnot3 : ¬ (h.brk = p + sz ∧ (∀ f ∈ h.flp, f.2 < len) ∧ (cfg.lim = 0 ∨ p + len ≤ cfg.lim)) := by
+            rintro ⟨h1, h2, _⟩
+            apply hnt
+            refine ⟨h1, ?_⟩
+            rcases hwit with hw | ⟨c, hc, hw⟩
+            · omega
+            · have := h2 c hc; omega
+          have hne : r.ret ≠ some p := by
+            split at hs
+            · simp only [Option.some.injEq] at hs; subst hs; simp
+            · rename_i memp hm
+              split at hs
+              · cases hs
+              · simp only [Option.some.injEq] at hs; subst hs
+                simp only [ne_eq, Option.some.injEq]
+                intro heq
+                obtain ⟨s2, _, h8, _, _, _, _, hdisj⟩ := malloc_returns_valid_block cfg ok h len memp hr hm
+                have := hdisj _ hlive
+                unfold Disj at this
+                simp only at this
+                subst heq
+                omega
+          constructor
+          · intro hc; exact absurd hc hne
+          · rintro (h1 | h1 | h1)
+            · omega
+            · exact absurd h1 hnot2
+            · exact absurd h1 hnot3
+
+example : ∃ r, realloc ⟨64, 0⟩ ⟨216, [(72, 64)], [(144, 64), (0, 64)]⟩ (some 8) 100 = some r ∧ r.ret = some 8 :=
+  ⟨_, rfl, by decide⟩
+example : ∃ r, realloc ⟨64, 0⟩ ⟨216, [(0, 64)], [(144, 64), (72, 64)]⟩ (some 80) 100 = some r ∧ r.ret = some 224 :=
+  ⟨_, rfl, by decide⟩
+
+
+/-- freeing EVERYTHING in ANY order: from every reachable heap, releasing the live blocks in
+an arbitrary order (any permutation of the live payload pointers) is a valid history — no
+request is rejected — and ends in the initial heap: break at the start, empty free list.
+All coalescing (up, down, both, lowering of the break) happens on the way, whatever the order. -/
+theorem heap_free_all_any_order (cfg : Cfg) (ok : CfgOK cfg) (h : Heap) (hr : Reach cfg h) (l : List Nat)
+    (hp : l.Perm (h.live.map (fun c => c.1 + 8))) :
+    run cfg h (l.map (fun p => Op.free (some p))) = some Heap.init := by
+  induction l generalizing h with
+  | nil =>
+    have hl : h.live = [] := by
+      have := hp.length_eq; simp only [List.length_nil, List.length_map] at this
+      exact List.eq_nil_of_length_eq_zero this.symm
+    obtain ⟨ops, hops⟩ := hr
+    simp only [List.map_nil, run]
+    rw [heap_back_to_initial_state cfg ok ops h hops hl]
+  | cons p l ih =>
+    have hmem : p ∈ h.live.map (fun c => c.1 + 8) := hp.mem_iff.1 (by simp)
+    have h8 : 8 ≤ p := by
+      obtain ⟨c, _, hc⟩ := List.mem_map.1 hmem
+      omega
+    have hmem' : (p - 8) + 8 ∈ h.live.map (fun c => c.1 + 8) := by
+      have : p - 8 + 8 = p := by omega
+      rw [this]; exact hmem
+    obtain ⟨sz, hl⟩ := lookup_of_mem_addr hmem'
+    obtain ⟨r, hf⟩ := free_total h8 hl
+    have hlive := free_live_eq hf
+    have hstep : step cfg h (.free (some p)) = some r := hf
+    simp only [List.map_cons, run, hstep]
+    apply ih r.h (hr.step hstep)
+    rw [hlive, map_remove]
+    have : p - 8 + 8 = p := by omega
+    rw [this]
+    have := hp.erase p
+    simpa using this
+
+example : run ⟨64, 0⟩ ⟨216, [(72, 64)], [(144, 64), (0, 64)]⟩ [.free (some 8), .free (some 152)] = some Heap.init := by decide
+
 end Igris.C10
